@@ -1,10 +1,12 @@
-// C13 round 2 — boundary coordinate pairs: int64_t and uint64_t coordinates (see C13_pairs.hh).
+// C13 round 2 — boundary coordinate pairs: uint32_t, int64_t and uint64_t coordinates (see C13_pairs.hh).
 #include "C13_pairs.hh"
 using namespace c13;
-VF_SECTION(pairs_64, 16, 16, 120) {
+VF_SECTION(pairs_32_64, 16, 16, 120) {
   bool th = r.thorough();
+  (void)th;
   std::string b;
-  run_pairs<Vector2<int64_t>>(r, boundary_alphabet<int64_t>(), th ? 4 : 2, b);
-  run_pairs<Vector2<uint64_t>>(r, boundary_alphabet<uint64_t>(), th ? 4 : 2, b);
-  r.bound = "every ordered pair (a,b) of the boundary alphabet (2^k-1, 2^k, 2^k+1 for every k up to the width, their negatives, 0, the limits; 8-bit: all 256 values) as the two coordinate values of a 4-point tree: " + b;
+  run_pairs<Vector2<uint32_t>>(r, boundary_alphabet<uint32_t>(), th ? 4 : 2, b);
+  run_pairs<Vector2<int64_t>>(r, boundary_alphabet<int64_t>(), th ? 4 : 0, b);
+  run_pairs<Vector2<uint64_t>>(r, boundary_alphabet<uint64_t>(), th ? 4 : 0, b);
+  r.bound = "every ordered pair (a,b) of the boundary alphabet (2^k-1, 2^k, 2^k+1 for every k up to the width, their negatives, 0, the limits; 8-bit in the thorough tier: all 256 values) as the two coordinate values of a 4-point tree: " + b;
 }
